@@ -371,6 +371,7 @@ pub fn string_ends_with(
     };
     let end_position = args
         .get(1)
+        .filter(|v| !v.is_undefined())
         .map(|v| v.to_number() as usize)
         .unwrap_or(s.len());
 
@@ -392,7 +393,7 @@ pub fn string_slice(
     let len = s.len() as i64;
 
     let start_arg = args.first().map(|v| v.to_number() as i64).unwrap_or(0);
-    let end_arg = args.get(1).map(|v| v.to_number() as i64).unwrap_or(len);
+    let end_arg = args.get(1).filter(|v| !v.is_undefined()).map(|v| v.to_number() as i64).unwrap_or(len);
 
     let start = if start_arg < 0 {
         (len + start_arg).max(0)
@@ -438,6 +439,7 @@ pub fn string_substring(
 
     let end = args
         .get(1)
+        .filter(|v| !v.is_undefined())
         .map(|v| {
             let n = v.to_number();
             if n.is_nan() { 0 } else { (n as usize).min(len) }
@@ -491,6 +493,7 @@ pub fn string_substr(
     // Get length (default: rest of string)
     let length = args
         .get(1)
+        .filter(|v| !v.is_undefined())
         .map(|v| {
             let n = v.to_number();
             if n.is_nan() || n < 0.0 { 0 } else { n as usize }
@@ -929,11 +932,17 @@ pub fn string_char_code_at(
     args: &[JsValue],
 ) -> Result<Guarded, JsError> {
     let s = interp.to_js_string(&this);
-    let index = if let Some(v) = args.first() {
-        interp.coerce_to_number(v)? as usize
+    // ToIntegerOrInfinity: NaN -> 0; a negative position is out of range (NaN result)
+    let position = if let Some(v) = args.first() {
+        interp.coerce_to_number(v)?
     } else {
-        0
+        0.0
     };
+    let position = if position.is_nan() { 0.0 } else { position.trunc() };
+    if position < 0.0 {
+        return Ok(Guarded::unguarded(JsValue::Number(f64::NAN)));
+    }
+    let index = position as usize;
 
     if let Some(ch) = s.as_str().chars().nth(index) {
         Ok(Guarded::unguarded(JsValue::Number(ch as u32 as f64)))
